@@ -133,3 +133,13 @@ package peers
 //@   requires peerSet != nil
 //@   modifies nothing
 //@   ensures[def] ret0 == common.Enc(PSHashOf(peerSet.Peers))
+
+//@ func (peerSet *PeerSet) Marshal() ([]byte, error)
+//@   trusted codec encoder: reads the peer set, writes nothing
+//@   requires peerSet != nil
+//@   modifies nothing
+
+//@ func (p *Peer) Marshal() ([]byte, error)
+//@   trusted codec encoder: reads the peer, writes nothing
+//@   requires p != nil
+//@   modifies nothing
